@@ -82,6 +82,13 @@ func init() {
 			a.c01Gates()
 			a.c01Primitives()
 			a.c01Provenance()
+			// what a public key is reported as (fingerprint) and whether a signature verifies under it depend on the
+			// key alone: nothing on those paths writes memory shared between keys or conversations (a cache, say)
+			pure := map[*ssa.Function]bool{}
+			for _, f := range a.reachableFns("(*DSAPublicKey).Fingerprint", "(*DSAPublicKey).Verify", "(*DSAPublicKey).serialize", "(*DSAPublicKey).Parse", "parseTheirKey", "checkedSignatureVerification", "(*Conversation).GetTheirKey") {
+				pure[f] = true
+			}
+			a.globalEffectsOn("E.key-pure", pure, 8)
 		})
 }
 
